@@ -160,6 +160,10 @@ dhcp-policies:
     apply-tcp-ttl: 64
     apply-default-lease: 1h
     apply-max-lease: 1d
+    apply-lease-time: 1h
+    apply-server-id: 192.0.2.1
+    apply-message: hello
+    apply-max-size: 1400
     policies:
       - match-subnet: 198.51.100.0/24
         apply-range: {start: 198.51.100.100, end: 198.51.100.199}
